@@ -1289,4 +1289,15 @@ theorem tools_equiv_fixed_monotone (parse : Bytes → List Call) (init : List Ch
 example : ParseMonotone parseF17 [nd (pieceA ++ pieceB1), nd pieceB2, fin]
     ∧ ¬ PrefixStable parseF17 [nd (pieceA ++ pieceB1), nd pieceB2, fin] := by decide
 
+
+/-- non-vacuity of the fault / repaired-variant theorems: a complete run with a failing Tokenize, and a
+    silent end under the F17d repair, evaluated by the kernel -/
+example : generateStreamH ⟨false, false, true, true⟩ .none false false 3 [nd sHi] .ok
+      = .ok [.msg ⟨sHi, ⟨true, false, [], 0, 0⟩, none⟩, .err sIncomplete]
+    ∧ generateOnceH ⟨false, false, true, true⟩ .none false false 3 [nd sHi] .ok = .error sIncomplete
+    ∧ chatStreamH ⟨false, false, true, false⟩ (.tok sBoom) parseF17 false true [nd sHi, fin] .ok = .error sBoom
+    ∧ chatStreamH ⟨false, false, true, false⟩ (.tok sBoom) parseF17 false false [nd sHi, fin] .ok
+      = .ok [.msg ⟨sHi, [], ⟨true, false, [], 0, 0⟩⟩, .msg ⟨[], [], ⟨true, true, sStop, 5, 7⟩⟩] :=
+  ⟨rfl, rfl, rfl, rfl⟩
+
 end OllamaVerif.C17
